@@ -61,6 +61,7 @@ def families(tier):
         ("G2-three-nucleotides", lambda: iter(fam.g2(tier)), 8),
         ("G3-corpus", lambda: fam.corpus_cases(tier, G3_Q, G3_T), 16),
         ("near-threshold", lambda: fam.near_threshold_cases(), 16),
+        ("composed", lambda: fam.composed_cases(tier), 8),  # several independent placements in one structure (chains A, B, C; also listed in reverse chain order)
         ("G4-schedules", lambda: g4_cases(tier), 4),
         # one structure object with two models of different geometry, queried model 1, model 2, model 1 again
         ("two-models", lambda: fam.two_model_cases(fam.g1_pairs(tier), 13 if tier == "quick" else 7, 3), 8),
